@@ -57,6 +57,8 @@ def gen_spec(seed, tier):
     rng = np.random.default_rng([int(seed), 11])
     vars_ = list(VARSETS[int(rng.integers(len(VARSETS)))])
     nlev = int(rng.choice([1, 1, 2, 3]))
+    layout = str(rng.choice(['onefile', 'proc']))
+    chk_proc_run = bool(rng.random() < 0.5)     # checkpoints written per process
     levels = {}
     for rl in range(nlev):
         shape = [int(v) for v in rng.integers(3, 10, 3)]
@@ -77,9 +79,11 @@ def gen_spec(seed, tier):
             boxes = etgen.product_boxes(shape, cuts)
         else:
             boxes = etgen.bisect_boxes(rng, shape, int(rng.integers(2, 9)))
-        if rl > 0:
-            # every process writes a piece of every level (as in real Carpet
-            # output): same number of chunks on all levels
+        if rl == 0 and len(boxes) == 1:
+            layout = 'onefile'   # a single process writes <var>.h5 without c=
+        if rl > 0 and (layout == 'proc' or chk_proc_run or rng.random() < 0.5):
+            # file per process: every process writes a piece of every level
+            # (as in real Carpet output): same number of chunks on all levels
             boxes = same_count_boxes(rng, shape, len(levels[0]['boxes']))
         perm = list(range(len(boxes)))
         if rng.random() < 0.5:
@@ -105,7 +109,7 @@ def gen_spec(seed, tier):
             # checkpoints with real data (two time levels) at output iterations
             pool = its[0]
             rs['checkpoints'] = sorted({int(v) for v in rng.choice(pool, int(rng.integers(1, 3)))})
-            rs['chk_proc'] = bool(rng.random() < 0.5)
+            rs['chk_proc'] = chk_proc_run
         restarts.append(rs)
         back = int(rng.integers(0, length + 1))          # overlap with the next restart
         start = start + (length - back) * (2 ** (nlev - 1) * 4)
@@ -113,9 +117,18 @@ def gen_spec(seed, tier):
     custom = None
     if grouped and rng.random() < 0.3 and 'alp' in vars_:
         custom = ('mythorn-mygroup', ['alp'])
-    layout = str(rng.choice(['onefile', 'proc']))
-    if len(levels[0]['boxes']) == 1:
-        layout = 'onefile'       # a single process writes <var>.h5 without c=
+    if layout == 'onefile' and rng.random() < 0.3:
+        # in a one-file layout the number of components of a level may change
+        # from one iteration to the next (regridding)
+        rl = int(rng.integers(nlev))
+        lev = levels[rl]
+        allit = sorted({i for rs in restarts for i in rs['its'].get(rl, [])})
+        if len(allit) > 1 and len(lev['boxes']) > 1:
+            cuts = [random_cuts(rng, lev['shape'][a], int(rng.integers(0, 3))) for a in range(3)]
+            late = etgen.product_boxes(lev['shape'], cuts)
+            if len(late) > 1:
+                lev['boxes_late'] = late
+                lev['late_from'] = allit[int(rng.integers(1, len(allit)))]
     return dict(simname=f'sim{seed}', vars=vars_, levels=levels, restarts=restarts,
                 layout=layout, grouped=grouped,
                 m0=bool(rng.random() < 0.3), xyz=bool(rng.random() < 0.3),
@@ -184,7 +197,7 @@ def check_read(res, A, param, spec, rng):
             continue
         # iterations and times
         its = [int(i) for i in data['it']]
-        if sorted(set(its)) != sorted(set(req)) or len(its) != len(set(its)):
+        if its != sorted(set(req)):
             common.add_violation(res, "returned 'it' column differs from the request",
                                  {"requested": req, "returned": its, "tags": tags})
             continue
